@@ -4,7 +4,7 @@
 From Coq Require Import QArith List ZArith.
 Import ListNotations.
 From SedV Require Import Clamp FitCore Flags Fit3 PLin Interp Xnum FilterOut Grid FitModel Fit3Proofs.
-From SedV Require RadiusM ResolvedM.
+From SedV Require RadiusM ResolvedM GridGuard.
 Open Scope Q_scope.
 
 (* the number of trial distances n = ceil(1 + L/step): at least both ends, spacing not above the step,
@@ -150,3 +150,16 @@ Theorem C02_resolved_not_beyond_table : forall tab theta ds col b i, (2 <= lengt
   ResolvedM.band_res tab theta ds col = Some b ->
   tab_hi tab <= nth i (ResolvedM.aps_of theta ds) 0 -> nth i (ResolvedM.b_mask b) false = false.
 Proof. exact ResolvedM.resolved_not_beyond_table. Qed.
+
+(* the count as the code computes it since F64, ceil(1 + L/step - g) with the guard g = 1e-10 against the rounding of L/step:
+   it is the exact count or one less ... *)
+Theorem C02_grid_guard_near : forall g L step, 0 <= g -> g < 1 ->
+  GridGuard.ndist_g g L step = ndist L step \/ GridGuard.ndist_g g L step = (ndist L step - 1)%Z.
+Proof. exact GridGuard.ndist_g_near. Qed.
+
+(* ... both ends are still included, the spacing exceeds the step by at most the relative g/(n-1), and one point fewer would be
+   too coarse *)
+Theorem C02_grid_guard : forall g L step, 0 <= g -> 0 < L -> 0 < step -> g < L / step ->
+  let n := GridGuard.ndist_g g L step in
+  (2 <= n)%Z /\ L / (inject_Z n - 1) <= step * (1 + g / (inject_Z n - 1)) /\ ((2 < n)%Z -> step < L / (inject_Z n - 2)).
+Proof. exact GridGuard.C02_grid_guard_lemma. Qed.
